@@ -24,6 +24,7 @@ DIAGS = [
     ("SFbNoErr", r"Task must return an error for FallbackWith to be used"),
     ("SNoOutput", r"task must return at least one non-error value"),
     ("SInvokeWithOutput", r"cff\.Invoke cannot be provided on a Task that produces values besides errors"),
+    ("InstrNoEmitter", r"cff\.Instrument requires a cff\.Emitter to be provided"),
 ]
 
 
@@ -39,6 +40,12 @@ class Case:
         self.pred = None      # (variadic, params, results)
         self.fallback = None  # number of values
         self.invoke = False
+        # instrumentation (validateInstrument): cff.Instrument on the task and/or cff.InstrumentFlow, and a
+        # cff.WithEmitter option before the task, after it, or missing - only used on declarations the
+        # signature rules accept
+        self.instr = False
+        self.flowinstr = False
+        self.emitter = "none"
 
     def line(self):
         def sig(v, ps, rs):
@@ -49,6 +56,8 @@ class Case:
         if self.fallback is not None:
             parts.append("FB %d" % self.fallback)
         parts.append("INV %d" % (1 if self.invoke else 0))
+        if getattr(self, "use_instr", False):
+            parts.append("X instrument=%s instrumentflow=%s emitter=%s" % (self.instr, self.flowinstr, self.emitter))   # not read by the model
         return " | ".join(parts)
 
 
@@ -99,10 +108,14 @@ def gen_case(r):
     if r.random() < 0.3:
         c.fallback = nouts if r.random() < 0.7 else max(0, nouts + r.choice([-1, 1]))
     c.invoke = (nouts == 0) if r.random() < 0.85 else (nouts != 0)
+    if r.random() < 0.35:
+        c.instr = r.random() < 0.7
+        c.flowinstr = (not c.instr) or r.random() < 0.3
+        c.emitter = r.choice(["before", "after", "after", "none"])
     return c
 
 
-def render(i, c):
+def render(i, c, instrumented=True):
     """Go source of case i (build tag cff): the functions and a flow using them."""
     L = ["//go:build cff", "", "package vsig", "", "import (", '\t"context"', "", '\t"go.uber.org/cff"', ")", ""]
 
@@ -135,13 +148,23 @@ def render(i, c):
         opts.append("cff.FallbackWith(%s)" % ", ".join("fb%d" % k for k in range(nfb)))
     if c.invoke:
         opts.append("cff.Invoke(true)")
+    if c.instr and instrumented:
+        opts.append('cff.Instrument("t%d")' % i)
     random.Random(i).shuffle(opts)   # task options in any order
     L.append("\treturn cff.Flow(ctx,")
     if inputs:
         L.append("\t\tcff.Params(%s)," % ", ".join("in%d" % k for k in range(len(inputs))))
     if outs:
         L.append("\t\tcff.Results(%s)," % ", ".join("&out%d" % k for k in range(len(outs))))
+    if instrumented and c.emitter == "before":
+        L.append("\t\tcff.WithEmitter(cff.NopEmitter()),")
+    if instrumented and c.flowinstr and i % 2 == 0:
+        L.append('\t\tcff.InstrumentFlow("f%d"),' % i)
     L.append("\t\tcff.Task(%s)," % ", ".join(["fn%04d" % i] + opts))
+    if instrumented and c.flowinstr and i % 2 == 1:
+        L.append('\t\tcff.InstrumentFlow("f%d"),' % i)
+    if instrumented and c.emitter == "after":
+        L.append("\t\tcff.WithEmitter(cff.NopEmitter()),")
     L.append("\t)")
     L.append("}")
     return "\n".join(L) + "\n"
@@ -181,8 +204,12 @@ def apply(chk, mod):
     pkg = os.path.join(mod, "vsig")
     os.makedirs(pkg)
     open(os.path.join(pkg, "types.go"), "w").write("package vsig\n\n" + "".join("type T%s struct{ V int }\n" % a for a in ATOMS))
+    model = common.model_run("sigtask", [c.line() for c in cases])
+    for c, mv in zip(cases, model):
+        # instrumentation options are added to declarations the signature rules accept only
+        c.use_instr = mv.startswith("ACCEPT") and (c.instr or c.flowinstr)
     for i, c in enumerate(cases):
-        open(os.path.join(pkg, "s%04d.go" % i), "w").write(render(i, c))
+        open(os.path.join(pkg, "s%04d.go" % i), "w").write(render(i, c, c.use_instr))
     rc, out = common.run_cff(mod, "./vsig")
     if "panic:" in out or "goroutine 1 [" in out:
         chk.violate("cff crashed on a generated package of single-task flows", {"output": out[-3000:]})
@@ -192,7 +219,6 @@ def apply(chk, mod):
         m = re.search(r"vsig/s(\d+)\.go:\d+:\d+: (.*)", line)
         if m:
             permsgs.setdefault(int(m.group(1)), []).append(m.group(2))
-    model = common.model_run("sigtask", [c.line() for c in cases])
     step = max(1, len(cases) // (16 if chk.tier == "quick" else 120))
     coq_cases.check_examples(chk, "signatures", "SignatureModel", [coq_example(cases[i], model[i]) for i in range(0, len(cases), step)],
                              "verdicts of the extracted compile_task re-computed inside Coq by vm_compute")
@@ -202,6 +228,9 @@ def apply(chk, mod):
         acc_impl = os.path.exists(os.path.join(pkg, "s%04d_gen.go" % i))
         mdiags = set(x for x in mv.split()[1].split(",") if x and x != "-") if mv.startswith("REJECT") else set()
         acc_model = mv.startswith("ACCEPT")
+        if c.use_instr and c.emitter == "none":
+            # validateInstrument: an instrumented flow or task needs an emitter - wherever the options stand
+            acc_model, mdiags = False, {"InstrNoEmitter"}
         idiags = classify(permsgs.get(i, []))
         if not acc_model:
             # a refused declaration leaves the flow's graph incomplete: the follow-on graph diagnostics
@@ -214,16 +243,16 @@ def apply(chk, mod):
         if acc_impl != acc_model:
             chk.violate("cff %s a task declaration that the signature rules %s: %s" % (
                 "accepted" if acc_impl else "rejected", "refuse" if acc_impl else "accept", c.line()),
-                {"case": c.line(), "go_source": render(i, c), "cff_messages": permsgs.get(i, []), "model": mv})
+                {"case": c.line(), "go_source": render(i, c, c.use_instr), "cff_messages": permsgs.get(i, []), "model": mv})
             return
         if not acc_impl and not permsgs.get(i):
             chk.violate("cff rejected a task declaration without a diagnostic naming its file: %s" % c.line(),
-                        {"case": c.line(), "go_source": render(i, c), "output_tail": out[-1500:]})
+                        {"case": c.line(), "go_source": render(i, c, c.use_instr), "output_tail": out[-1500:]})
             return
         if idiags != mdiags and diff is None:
             diff = ("diagnostics differ between cff %s and SignatureModel.compile_task %s on %s" % (sorted(idiags), sorted(mdiags), c.line()),
                     {"theorem": "correspondence SignatureModel.compile_task ~ compileTask/compileFunction/compilePredicate (diagnostic classes)",
-                     "case": c.line(), "go_source": render(i, c), "cff_messages": permsgs.get(i, []), "model": mv})
+                     "case": c.line(), "go_source": render(i, c, c.use_instr), "cff_messages": permsgs.get(i, []), "model": mv})
     if diff is not None:
         chk.fail_no_input(*diff)
         return
